@@ -8,7 +8,7 @@
 
   `cap` is the queue capacity the client was built with (the run starts with `setCapacity cap`;
   0 = unbounded); `locked` = 1: the repaired client (process() connects and sends under the send
-  lock, ApplyConfig re-dials under it), 0: the client as found.
+  lock, ApplyConfig re-dials under it, send()'s recover() reports), 0: the client as found.
 
   events (sends are numbered 1,2,3,… in the order of their d/q events; `len` is the length of
   the send's frame — the harness scales real lengths down, the structure is what is compared):
@@ -104,7 +104,7 @@ def answer (line : String) : String :=
     | some cap =>
       let lk := bgl == "1"
       let cfg : Cfg := { useQueue := q == "1", sendLocked := true, bgLocked := lk, procLocked := lk, acLocked := lk,
-                         rearm := true }
+                         rearm := true, recoverReports := lk }
       let texts := if evs == "-" then #[] else (evs.splitOn ";").toArray
       match texts.mapM parseEv with
       | some es => replay cfg cap es texts
